@@ -1,12 +1,133 @@
-// Package c05 checks property C05 (not built yet).
+// Package c05 checks property C05: an input that refers to an undefined name or
+// defines a name twice is reported as an error -- no module, no crash.
 package c05
 
 import (
+	"fmt"
+	"strings"
+
 	"verif/harness/mbt"
 	"verif/harness/props/reg"
+	"verif/harness/props/trcheck"
+	"verif/harness/props/trsrc"
 )
 
 func init() { reg.Register("C05", Run) }
 
+// site names the fault of a vector in a stable way.
+func site(src []trsrc.Entity) string {
+	fs := trsrc.FaultSites(src)
+	ds := trsrc.DupSites(src)
+	var parts []string
+	if len(fs) > 0 {
+		parts = append(parts, "undefined@"+strings.Join(fs, "+"))
+	}
+	if len(ds) > 0 {
+		parts = append(parts, "duplicate@"+strings.Join(ds, "+"))
+	}
+	if len(parts) == 0 {
+		return "no-fault"
+	}
+	return strings.Join(parts, ",")
+}
+
+func judge(rep *mbt.Report, cs []*trcheck.Case, arbitrated bool) (faults, discarded int) {
+	for _, c := range cs {
+		s := site(c.Src)
+		if c.Want.St != "err" {
+			// fault-free source, or the documented exception (undefined attribute group)
+			if c.Want.St == "ok" && strings.Contains(s, "a.func") || strings.Contains(s, "a.call") {
+				rep.Count("exception:"+c.Text, true)
+				switch {
+				case c.Panic != "":
+					rep.Fail(mbt.Failure{Signature: "C05|" + s + "|panic", What: "undefined attribute group: parser panics: " + c.Panic, Case: map[string]string{"src": c.Text}})
+				case c.Err != nil:
+					rep.Fail(mbt.Failure{Signature: "C05|" + s + "|rejected", What: "undefined attribute group is documented to be materialised, parser returns error: " + c.Err.Error(), Case: map[string]string{"src": c.Text}})
+				}
+			}
+			continue
+		}
+		if arbitrated && c.LLVMOK {
+			// LLVM does not consider this a fault: outside the quantifier
+			discarded++
+			continue
+		}
+		faults++
+		rep.Count("fault:"+c.Text, true)
+		if len(rep.Samples) < 4 {
+			rep.Sample(map[string]interface{}{"site": s, "src": c.Text, "required": "error, no module", "llvm": mbt.Truncate(c.LLVMDiag, 120),
+				"observed": map[string]interface{}{"err": fmt.Sprint(c.Err), "panic": c.Panic, "module": c.Mod != nil}})
+		}
+		switch {
+		case c.Panic != "":
+			rep.Fail(mbt.Failure{Signature: "C05|" + s + "|panic",
+				What: fmt.Sprintf("parser crashes instead of returning an error (%s): %s", s, mbt.Truncate(c.Panic, 200)), Case: map[string]string{"src": c.Text}})
+		case c.Err == nil:
+			rep.Fail(mbt.Failure{Signature: "C05|" + s + "|accepted",
+				What: fmt.Sprintf("parser returns a module for an input with %s; printed:\n%s", s, mbt.Truncate(c.Printed, 300)), Case: map[string]string{"src": c.Text}})
+		case c.Mod != nil:
+			rep.Fail(mbt.Failure{Signature: "C05|" + s + "|error-with-module",
+				What: "parser returns both an error and a module", Case: map[string]string{"src": c.Text}})
+		}
+	}
+	return
+}
+
 // Run is the C05 check.
-func Run(tier, replay string) { mbt.Infra("check C05 is not built yet") }
+func Run(tier, replay string) {
+	rep := mbt.NewReport("C05", tier, "model_checking")
+	rep.Rule = "sources = reference patterns of TranslateSrc.tla x every reference site redirected to an undefined name x every definition duplicated (TLC: ErrorOnFault/Deterministic on every processing order); a case is a faulted source that LLVM also rejects, rendered and given to the real parser"
+	if replay != "" {
+		var rf struct {
+			Failures []struct {
+				Case map[string]string `json:"case"`
+			} `json:"failures"`
+		}
+		if err := mbt.ReadJSON(replay, &rf); err != nil {
+			mbt.Infra("replay: %v", err)
+		}
+		for _, f := range rf.Failures {
+			text := f.Case["src"]
+			m, err, p := trcheck.ParseReal("replay.ll", text)
+			rep.Count(text, true)
+			if p != "" || err == nil || m != nil {
+				rep.Fail(mbt.Failure{Signature: "C05|replay", What: fmt.Sprintf("err=%v panic=%q module=%v", err, p, m != nil), Case: f.Case})
+			}
+		}
+		rep.Finish()
+	}
+	perm := 3
+	if tier == "thorough" {
+		perm = 4
+	}
+	_ = perm
+	vs := trcheck.Generate(rep, "faults", 3)
+	cs := trcheck.Run(vs)
+	faults, discarded := judge(rep, cs, true)
+	// type-alias sources: LLVM cannot arbitrate them (it has no alias types); the parser accepts
+	// the construct, so an undefined alias target is an undefined name by the property's wording
+	avs := trcheck.Generate(rep, "alias", 3)
+	acs := trcheck.Run(avs)
+	f2, _ := judge(rep, acs, false)
+	faults += f2
+	rep.TracesValidated = faults
+	rep.Extra["faulted_sources"] = len(vs) + len(avs)
+	rep.Extra["discarded_not_a_fault_for_llvm"] = discarded
+	if discarded*5 > len(vs) {
+		mbt.Infra("%d of %d faulted sources are accepted by LLVM: the fault generator is off", discarded, len(vs))
+	}
+	if tier == "thorough" {
+		// faults crossed with permutations of the source order: the processing order differs, the verdict must not
+		// (the model proves this for every order; here the real map orders are sampled by repetition)
+		for round := 0; round < 20; round++ {
+			cs := trcheck.Run(vs)
+			judge(rep, cs, true)
+		}
+	}
+	viol := trcheck.AsImplementedViolations(rep, "all")
+	rep.Extra["model_as_implemented_violates"] = viol
+	rep.Exhaustive = true
+	rep.Assumptions = []string{"fault sites are those of the 12 reference patterns of TranslateSrc.tla (14 reference-site kinds, 5 duplicate kinds); constructs outside the patterns are not faulted",
+		"LLVM 14 (llvm-as) arbitrates whether a faulted text is a fault"}
+	rep.Finish()
+}
